@@ -330,6 +330,12 @@ pub struct GradCase {
     /// how many times the operation result is built and summed before the pass (1 = plain single operation)
     #[serde(default)]
     pub uses: usize,
+    /// how many times backward is called on the same result (0 or 1 = once); gradients accumulate
+    #[serde(default)]
+    pub passes: usize,
+    /// the second operand is the very same handle as the first (x op x); `leaves[1]` is ignored
+    #[serde(default)]
+    pub same_operand: bool,
 }
 
 impl GradCase {
@@ -342,7 +348,10 @@ impl GradCase {
     fn history(&self) -> History {
         let mut steps: Vec<Step> = self.leaves.iter().map(|l| Step::Leaf { dims: l.dims.clone(), vals: l.vals.clone(), tracked: l.tracked }).collect();
         let n = self.leaves.len();
-        let args: Vec<usize> = (0..n).collect();
+        let mut args: Vec<usize> = (0..n).collect();
+        if self.same_operand && n >= 2 {
+            args[1] = 0;
+        }
         let uses = self.uses.max(1);
         for _ in 0..uses {
             steps.push(Step::Apply(ApplySpec { op: self.op.clone(), args: args.clone() }));
@@ -352,7 +361,9 @@ impl GradCase {
             steps.push(Step::Apply(ApplySpec { op: OpKind::Add, args: vec![root, n + u] }));
             root = n + uses + u - 1;
         }
-        steps.push(Step::Backward { h: root, seed: self.seed.clone() });
+        for p in 0..self.passes.max(1) {
+            steps.push(Step::Backward { h: root, seed: self.seed.as_ref().map(|s| s.iter().map(|v| v + p as f64).collect()) });
+        }
         History { steps }
     }
 }
@@ -371,12 +382,14 @@ impl CaseKind for GradCase {
         let mut m = RefState::new(1 << 20);
         let mut ex = Exec::new();
         let dims = self.dims();
-        let key = key_of("grad", &self.op, &self.leaves, (self.seed.is_some() as u64) * 16 + self.uses as u64);
+        let key = key_of("grad", &self.op, &self.leaves, (self.seed.is_some() as u64) * 16 + self.uses as u64 + 64 * self.passes as u64 + 1024 * self.same_operand as u64);
         let classes = vec![
             format!("op:{}", op_param_class(&self.op)),
             format!("shape:{}", shape_class(&self.op, &dims)),
             format!("tracked:{}", self.leaves.iter().map(|l| if l.tracked { 'T' } else { 'u' }).collect::<String>()),
             format!("uses:{}", self.uses.max(1)),
+            format!("passes:{}", self.passes.max(1)),
+            format!("same-operand:{}", self.same_operand),
         ];
         let kinks = refmodel::ops::kink_count();
         for (i, s) in hist.steps.iter().enumerate() {
